@@ -19,7 +19,14 @@ from .sorts import World, CheckerError, parse_source, dataclass_info, REPO
 
 EAGER_FEASIBILITY = bool(os.environ.get('VERIF_EAGER_FEAS'))
 MAX_SELF_RECURSION = 6
-MAX_RECURSIVE_ACTIVATIONS = 300
+
+
+class JobAbort(CheckerError):
+    """the whole job is not analysable (not just the current path): propagates out of the path exploration"""
+    pass
+
+
+MAX_RECURSIVE_ACTIVATIONS = 60
 _BUDGET_LOG = {} if os.environ.get('VERIF_BUDGET_LOG') else None
 if _BUDGET_LOG is not None:
     import atexit
@@ -1824,18 +1831,19 @@ class Interp:
         # a function that calls itself is unrolled only a few levels (enough for recursion over a short concrete list); deeper self-recursion over
         # symbolic data would fork at every level: it needs a contract (not analysable, never a violation)
         stack = self.__dict__.setdefault('inline_stack', [])
-        mine = [nf for g, nf in stack if g is f]
+        mine = [nf for g, nf in stack if g.node is f.node]
         if len(mine) >= MAX_SELF_RECURSION:
             raise CheckerError(f'{f.qualname} calls itself more than {MAX_SELF_RECURSION} levels deep while being executed in place: recursion needs a contract')
         if mine:
             # self-recursion executed in place is bounded by a budget of activations per job: recursion that follows a concrete value (a pattern, a short
             # list) stays far below it, recursion that follows the shape of a symbolic value forks at every level and would not end
             budget = self.__dict__.setdefault('recursion_budget', {})
-            budget[f] = budget.get(f, 0) + 1
-            if _BUDGET_LOG is not None and budget[f] > _BUDGET_LOG.get(f.qualname, 0):
-                _BUDGET_LOG[f.qualname] = budget[f]
-            if budget[f] > MAX_RECURSIVE_ACTIVATIONS:
-                raise CheckerError(f'{f.qualname} recurses over symbolic data while being executed in place ({MAX_RECURSIVE_ACTIVATIONS} nested activations in this job): recursion needs a contract')
+            bk = id(f.node)
+            budget[bk] = budget.get(bk, 0) + 1
+            if _BUDGET_LOG is not None and budget[bk] > _BUDGET_LOG.get(f.qualname, 0):
+                _BUDGET_LOG[f.qualname] = budget[bk]
+            if budget[bk] > MAX_RECURSIVE_ACTIVATIONS:
+                raise JobAbort(f'{f.qualname} recurses over symbolic data while being executed in place ({MAX_RECURSIVE_ACTIVATIONS} nested activations in this job): recursion needs a contract')
         stack.append((f, 0))
         try:
             return self._inline_body(f, env)
